@@ -108,7 +108,7 @@ func runC03(c *fw.Ctx) {
 	if c.Batch < 16 {
 		c03Concurrent(c)
 	}
-	nhist := c.N(240, 4800) / c.NBatches
+	nhist := c.N(240, 2400) / c.NBatches
 	for q := 0; q < nhist; q++ {
 		idx := c.Batch*nhist + q
 		if c.Skip(idx) {
